@@ -46,6 +46,9 @@ def draw_case(rng):
         for k in ("nu", "nu_S", "nu_L"):
             if k in prm and rng.random() < .5:
                 prm[k] = float(rng.choice([0.0, 0.5]))
+    if "R" in prm and rng.random() < .25:
+        # sharp probes: tip radii of nanometres (everything is in SI units)
+        prm["R"] = float(10 ** rng.uniform(-9, -6))
     cp = float(rng.uniform(-1, 1) * 10 ** rng.uniform(-8, -5.5))
     if rng.random() < .1:
         cp = 0.0
@@ -180,9 +183,12 @@ def sphere_case(rec, rng, case_id):
     md = model.models_available["sneddon_spher_approx"]
     E = float(10 ** rng.uniform(2, 6))
     R = float(rng.uniform(1, 30) * 1e-6)
+    if rng.random() < .3:
+        # sharp probes: tip radii of nanometres (everything is in SI units)
+        R = float(10 ** rng.uniform(-9, -6))
     nu = float(rng.uniform(0, .5))
     cp = float(rng.uniform(-1e-6, 1e-6))
-    bl = float(rng.uniform(-1e-9, 1e-9))
+    bl = float(rng.uniform(-1e-9, 1e-9)) * (R / 1e-5) ** 2
     # contact radii such that delta covers (0, R]; delta(a)=R at a~0.8336 R
     a = np.linspace(1e-6, 0.8400, int(rng.choice([200, 2000]))) * R
     delta, F = ref.sneddon_exact(a, E, R, nu)
